@@ -19,7 +19,7 @@ func init() {
 			"worker return; (R2) every queue's context is derived from the queue set's context, which Stop cancels (shutdown is a sticky " +
 			"state inherited by queues created later, not a one-shot action over the current map); (R3) Shutdown stops the schedule " +
 			"manager, pauses event handling in every informer (static, varying, namespace) and stops the queues, in this order, then " +
-			"waits; a paused informer returns before doing anything. NOT decided: 'as soon as' (timing), the window between the last " +
+			"waits; a paused informer returns before doing anything. The worker never blocks in a wait that does not watch its context (R1). NOT decided: 'as soon as' (timing), the window between the last " +
 			"context test and GetFirst, data races on the plain `stopped` booleans.",
 		Run: runC17,
 	})
